@@ -92,6 +92,7 @@ type Cell struct {
 	// round 3
 	CloseFail bool // closing the ammo file fails (file sources only)
 	Pad       int  // every entry's URI carries a query of this many bytes (invisible to the provider's logic: file size only)
+	Both      bool        // BOTH a file and inline `uris:` are configured (NewProvider must reject that)
 	Big       map[int]int // entry i is Big[i] bytes big: uripost / http/json: its body; raw: its whole request
 }
 
@@ -511,9 +512,10 @@ func construct(c Cell, path string) (p core.Provider, err error) {
 			ChosenCases: c.Chosen,
 			Headers:     cfgHeaderLines(c),
 		}
-		if c.Uris {
+		if c.Uris || c.Both {
 			conf.Uris = URILines(c)
-		} else {
+		}
+		if !c.Uris {
 			conf.File = path
 		}
 		return httpprov.NewProvider(FS, conf)
@@ -524,13 +526,14 @@ func construct(c Cell, path string) (p core.Provider, err error) {
 		httpprov.Import(FS)
 	})
 	m := map[string]any{"type": pluginType(c.Kind)}
-	if c.Uris {
+	if c.Uris || c.Both {
 		us := []any{}
 		for _, l := range URILines(c) {
 			us = append(us, l)
 		}
 		m["uris"] = us
-	} else {
+	}
+	if !c.Uris {
 		m["file"] = path
 	}
 	if c.Limit != 0 {
